@@ -30,6 +30,12 @@ impl SwiftField for Field20 {
         // Parse the reference with max length of 16
         let reference = parse_max_length(input, 16, "Field 20 reference")?;
 
+        if reference.is_empty() {
+            return Err(ParseError::InvalidFormat {
+                message: "Field 20 reference cannot be empty".to_string(),
+            });
+        }
+
         // Validate SWIFT character set
         parse_swift_chars(&reference, "Field 20 reference")?;
 
